@@ -87,7 +87,7 @@ pub fn plans(prop: &str) -> Vec<Plan> {
         "C19" => vec![p("B", "hostile", 6_000, 150_000, 250), p("B", "handshake", 6_000, 150_000, 250)],
         "C14" | "C15" => vec![p("A", "budget", 10_000, 300_000, 400), p("A", "lossy", 4_000, 100_000, 400)],
         "C06" => vec![p("A", "hostile", 20_000, 600_000, 300)],
-        "C11" => vec![p("A", "multi", 10_000, 300_000, 500)],
+        "C11" => vec![p("A", "multi", 10_000, 300_000, 500), p("A", "budget", 5_000, 100_000, 400)],
         "C12" => vec![p("A", "api", 15_000, 400_000, 300)],
         _ => vec![],
     }
